@@ -118,6 +118,42 @@ def c07a_columns(ctx):
             ctx.fail(o, Site(b, 0, 0), "%s must store both the query input and the query result (found %s)" % (fn, sorted(kinds)))
 
 
+def c07a_kind(ctx):
+    """An explicitly set input is stored with QueryKind::Input — that is what makes repair compare its fingerprint instead of
+    trying to execute it, and what stops dirty propagation from treating it as a firewall.  set_input / update say so with
+    `set_input = true`; refresh of an external input re-uses the function with `false` (its kind stays what the executor
+    declared)."""
+    prog = ctx.prog
+    o = ctx.ob("C07.a", "set_computed_input/kind-written-exactly-for-explicit-inputs", "K4+K5",
+               "set_computed_input stores QueryKind::Input exactly under set_input == true; InputSession::set_input and ::update pass true, the external-input refresh passes false")
+    b = ctx.touch(prog.coroutine_of("Snapshot::set_computed_input"))
+    ws = [s_ for s_ in b.calls(lambda f, t: bool(MAP_WRITE.search(f["path"])) and f["path"].endswith("::insert")) if "query_kind" in df.access_path(b, s_.node["args"][0])]
+    o.sites = len(ws)
+    if len(ws) != 1:
+        ctx.fail(o, Site(b, 0, 0), "anchor missing: the query_kind write of set_computed_input (found %d)" % len(ws))
+    else:
+        g = [x for x in df.guarded_by(b, ws[0].bb, lambda c: True) if x[3].kind not in ("disc", "call") or (x[3].kind == "call" and "poll" not in x[3].callee)]
+        pols = set()
+        for sb, v, tb, c in g:
+            pl = getattr(c, "place", None)
+            src = list(df.origins_of_place(b, pl)) if pl is not None else (list(df.origins_of_operand(b, b.blocks[sb]["term"]["op"])))
+            if any(x.kind == "param" for x in src):
+                pols.add((v != 0 and v != "0") if v != "otherwise" else True)
+        if pols != {True}:
+            ctx.fail(o, ws[0], "QueryKind::Input is stored under set_input == %s (must be exactly `true`)" % (sorted(pols) or "no test of the parameter"))
+    sites = prog.callers_of(r"Snapshot<C, Q>>::set_computed_input$|Snapshot::<C, Q>::set_computed_input$")
+    o.sites += len(sites)
+    if len(sites) < 3:
+        ctx.fail(o, "(program)", "expected >= 3 callers of set_computed_input, found %d" % len(sites))
+    for s_ in sites:
+        c_ = (s_.node["args"][6].get("c") or {}) if len(s_.node["args"]) > 6 else {}
+        val = c_.get("s")
+        want = "false" if "refresh" in s_.body.name or "external" in s_.body.name.lower() else "true"
+        ctx.touch(s_.body)
+        if val != want:
+            ctx.fail(o, s_, "%s calls set_computed_input with set_input = %s (expected %s)" % (s_.body.name, val, want))
+
+
 def c07c(ctx):
     prog = ctx.prog
     o = ctx.ob("C07.c", "Database-drop/takes-and-waits-all-fields", "K10+K2", "Drop for Database drains every ManuallyDrop field (incl. the write manager inside `sync`) and waits for all drop tasks")
@@ -265,6 +301,7 @@ def run(ctx):
     from . import C10
     ctx.run_clause("C07.a", c07a)
     ctx.run_clause("C07.a", c07a_columns)
+    ctx.run_clause("C07.a", c07a_kind)
     ctx.alias = {"C10.e": "C07.b"}
     ctx.run_clause("C07.b", C10.c10e)
     ctx.alias = {}
